@@ -22,8 +22,8 @@ use crate::{dbutil, watch};
 
 pub fn plan(tier: &str) -> u64 {
     match tier {
-        "quick" => 1 + 12 + 40 + n_parked(tier) + n_open_race(tier) + n_outlive(tier),
-        _ => 2 + 100 + 500 + n_parked(tier) + n_open_race(tier) + n_outlive(tier),
+        "quick" => 1 + 12 + 40 + n_parked(tier) + n_open_race(tier) + n_outlive(tier) + n_churn(tier),
+        _ => 2 + 100 + 500 + n_parked(tier) + n_open_race(tier) + n_outlive(tier) + n_churn(tier),
     }
 }
 
@@ -35,6 +35,9 @@ fn n_parked(tier: &str) -> u64 {
 }
 fn n_outlive(tier: &str) -> u64 {
     if tier == "quick" { 8 } else { 64 }
+}
+fn n_churn(tier: &str) -> u64 {
+    if tier == "quick" { 28 } else { 280 }
 }
 fn n_open_race(tier: &str) -> u64 {
     if tier == "quick" { 12 } else { 96 }
@@ -697,6 +700,153 @@ fn case_parked_reader(out: &mut CaseOut, seed: u64, idx: u64) {
     sess.close();
 }
 
+/// The background thread is parked in the middle of its work - a flush whose table is built but
+/// not yet installed, a manifest append, a compaction that has outputs open, a garbage collection
+/// about to delete - and meanwhile a client does everything a client can do that touches the
+/// lifetime of files: it drops iterators and snapshots that alone kept superseded versions alive,
+/// creates and drops fresh ones, reads hits and misses, asks for descriptors. Whatever those calls
+/// set off (the release of a version, a collection) must not touch a file that the parked work is
+/// about to install: after the release every key must be readable, the accountant must have seen
+/// no use of a removed file, and the directory must be exact again after one more cycle.
+fn case_client_churn_while_worker_parked(out: &mut CaseOut, seed: u64, idx: u64) {
+    use crate::director::COMPACTOR;
+    let mut rng = Rng::new(mix(&[seed, idx], "c11-churn-parked"));
+    let d = director();
+    d.reset(rng.next_u64());
+    let cfg = Config { memtable: *rng.pick(&[1024usize, 2048, 4096]), file: *rng.pick(&[1024u64, 4096]), block: 256, reuse: rng.chance(0.5) };
+    let fs = SimFs::from_image(&dbutil::root_image());
+    fs.set_strict_unlink(true);
+    let mut sess = Session::new(fs.clone(), cfg);
+    sess.fill_cache = false;
+    if let Err(e) = sess.open() {
+        out.violate("C11/open-failed", json!({"error": e}));
+        return;
+    }
+    let pool = gen::key_pool(&mut rng, gen::KeyFamily::Ascii, 40);
+    let mut counter = 0u64;
+    let mut rewrite = |sess: &mut Session, rng: &mut Rng, compact: bool| -> bool {
+        for k in &pool {
+            counter += 1;
+            if sess.put(k, &gen::tagged_value(rng, &format!("v{counter}:"), 40)).is_err() {
+                return false;
+            }
+        }
+        if compact {
+            sess.compact(None, None);
+        }
+        sess.wait_quiescent(Duration::from_secs(20))
+    };
+    if !rewrite(&mut sess, &mut rng, true) {
+        out.inconclusive("degenerate: load refused");
+        return;
+    }
+    // readers that pin the version of this moment; two rewrites make it a superseded one that only they keep alive
+    let mut iters = vec![];
+    let mut snaps = vec![];
+    for _ in 0..rng.range(1, 3) {
+        let mut it = sess.db().new_iterator(raindb::ReadOptions { fill_cache: false, snapshot: None }).unwrap();
+        let _ = it.seek_to_first();
+        iters.push(it);
+        snaps.push(sess.db().get_snapshot());
+    }
+    let second_compacts = rng.chance(0.5);
+    if !(rewrite(&mut sess, &mut rng, true) && rewrite(&mut sess, &mut rng, second_compacts)) {
+        out.inconclusive("degenerate: rewrite refused");
+        return;
+    }
+    const POINTS: [&str; 7] = ["flush.after_build", "manifest.before_append", "manifest.after_append", "flush.before_build", "compact.step", "gc.before_delete", "manifest.before_append"];
+    let point: &'static str = POINTS[(idx % POINTS.len() as u64) as usize];
+    let nth = if point == "compact.step" { rng.range(3, 30) } else { 1 };
+    let ctx = json!({"family": "client-churn-while-worker-parked", "config": cfg.describe(), "worker_parked_at": point, "nth_arrival": nth, "pinning_iterators": iters.len()});
+    let gate = d.arm(COMPACTOR, point, nth);
+    // set the background work off: writes until the gate is reached; a put never waits while no immutable memtable is pending,
+    // so stop as soon as one is (the parked thread is the only one that could flush it)
+    let mut i = 0u64;
+    let t0 = Instant::now();
+    while !d.is_arrived(gate) && t0.elapsed() < Duration::from_secs(10) {
+        if sess.db().verif_probe().has_immutable_memtable {
+            std::thread::sleep(Duration::from_millis(1));
+            watch::tick();
+            continue;
+        }
+        i += 1;
+        let k = if point == "compact.step" || rng.chance(0.5) { rng.pick(&pool).clone() } else { format!("~fill{:05}", i).into_bytes() };
+        counter += 1;
+        if sess.put(&k, &gen::tagged_value(&mut rng, &format!("v{counter}:"), 60)).is_err() {
+            break;
+        }
+    }
+    if !d.wait_arrived(gate, Duration::from_secs(5)) {
+        d.release(gate);
+        out.inconclusive(format!("client-churn: the background thread did not reach {point}"));
+        drop(iters);
+        for s in snaps {
+            sess.db().release_snapshot(s);
+        }
+        sess.close();
+        return;
+    }
+    out.add(&format!("worker_parked.{point}"), 1);
+    // the churn
+    let mut dropped = 0u64;
+    while let Some(it) = iters.pop() {
+        drop(it);
+        dropped += 1;
+        if let Some(s) = snaps.pop() {
+            sess.db().release_snapshot(s);
+        }
+        for _ in 0..rng.range(1, 4) {
+            let k = if rng.chance(0.5) { rng.pick(&pool).clone() } else { b"~no-such-key".to_vec() };
+            if let Ok(got) = sess.get(&k) {
+                if got.as_ref() != sess.model.get(&k) {
+                    out.violate("C11/wrong-read-while-worker-parked", json!({"ctx": ctx, "key": show(&k)}));
+                }
+            }
+            let mut it = sess.db().new_iterator(raindb::ReadOptions { fill_cache: false, snapshot: None }).unwrap();
+            let _ = it.seek(&k);
+            drop(it);
+            let s = sess.db().get_snapshot();
+            sess.db().release_snapshot(s);
+        }
+        let _ = sess.descriptor(DatabaseDescriptor::SSTables);
+    }
+    out.add("iterators_dropped_while_worker_parked", dropped);
+    d.release(gate);
+    if !sess.wait_quiescent(Duration::from_secs(30)) {
+        out.inconclusive("client-churn: the database did not go quiet after the release (see C09)");
+        sess.close();
+        return;
+    }
+    // everything acknowledged must be readable, by get and by scan
+    let mut bad = 0;
+    for (k, v) in sess.model.clone() {
+        match sess.get(&k) {
+            Ok(Some(got)) if got == v => {}
+            other => {
+                bad += 1;
+                if bad <= 3 {
+                    out.violate("C11/live-file-deleted/committed-key-unreadable-after-client-churn", json!({"ctx": ctx, "key": show(&k), "got": format!("{other:?}").chars().take(120).collect::<String>(), "files": fs.image().listing()}));
+                }
+            }
+        }
+    }
+    match sess.scan(None) {
+        Ok(entries) => {
+            if entries.len() != sess.model.len() {
+                out.violate("C11/live-file-deleted/scan-incomplete-after-client-churn", json!({"ctx": ctx, "scanned": entries.len(), "expected": sess.model.len()}));
+            }
+        }
+        Err(e) => out.violate("C11/live-file-deleted/scan-error-after-client-churn", json!({"ctx": ctx, "error": e})),
+    }
+    judge_anomalies(out, &fs, &ctx, "C11");
+    if !out.is_violated() {
+        dir_check(out, &mut sess, "after-client-churn-while-worker-parked", &ctx, "C11");
+    }
+    out.nontrivial(format!("client-churn/{point}/dropped{}", dropped.min(3)));
+    out.sample = Some(json!({"family": "client-churn-while-worker-parked", "ctx": ctx, "iterators_dropped_while_parked": dropped}));
+    sess.close();
+}
+
 /// Crash images of a recorded execution (orphan tables of unfinished flushes and compactions,
 /// half-written temp files, superseded manifests, stale WALs): after recovery, one more flush/GC
 /// cycle and quiescence the directory must again hold exactly what is needed.
@@ -798,7 +948,10 @@ fn case_crash_images(out: &mut CaseOut, tier: &str, seed: u64, idx: u64) {
 pub fn run_case(tier: &str, seed: u64, idx: u64) -> CaseOut {
     let mut out = CaseOut::new();
     let (ng, no) = (n_gap(tier), n_orphan(tier));
-    if idx < ng {
+    let before_churn = ng + no + n_shapes(tier) + n_parked(tier) + n_open_race(tier) + n_outlive(tier);
+    if idx >= before_churn {
+        case_client_churn_while_worker_parked(&mut out, seed, idx - before_churn);
+    } else if idx < ng {
         case_gap(&mut out, seed, idx);
     } else if idx < ng + no {
         case_orphans(&mut out, seed, idx - ng);
